@@ -1010,5 +1010,9 @@ static void run_special_mode(void)
         mp_run();
         return;
     }
+    if (G.mode == 3) {
+        ft_run();
+        return;
+    }
     generr("mode %d not built", G.mode);
 }
